@@ -10,7 +10,7 @@ def reshape_gemm_reshape_pattern(op, input_a, input_b, input_c, shape_a, shape_c
     reshape_a = op.Reshape(input_a, shape_a)
     # TODO: Temporary workaround to support benchmodels.
     # Tracked by https://github.com/microsoft/onnx-rewriter/issues/197.
-    gemm = op.Gemm(reshape_a, input_b, input_c, alpha=1.0, beta=1.0)
+    gemm = op.Gemm(reshape_a, input_b, input_c, alpha=1.0, beta=1.0, _outputs=["gemm_out"])
     return op.Reshape(gemm, shape_c)
 
 
@@ -20,8 +20,18 @@ def matmul_add(op, input_a, input_b, input_c, **_):
 
 
 def _check_bias_and_reshapes(
-    context, input_a: ir.Value, input_b: ir.Value, input_c: ir.Value, shape_c: ir.Value, **_
+    context,
+    input_a: ir.Value,
+    input_b: ir.Value,
+    input_c: ir.Value,
+    shape_c: ir.Value,
+    gemm_out: ir.Value,
+    **_,
 ) -> bool:
+    # MatMul(a, b) + c is Gemm(a, b, c) only without transposition
+    gemm_attributes = gemm_out.producer().attributes
+    if gemm_attributes.get_int("transA", 0) != 0 or gemm_attributes.get_int("transB", 0) != 0:
+        return False
     # The bias is broadcast to the 2-D output [M, N] of Gemm; in the replacement it is added to the
     # MatMul output of the final shape [..., N] instead. That is the same computation only if every
     # dimension the bias spans is also a trailing dimension of the final shape (e.g. a bias of
